@@ -1,5 +1,6 @@
-------------------------------- MODULE MC_U1 -------------------------------
-(* Universe U1: flat leaves a, b and a nested dict n{x,y}; function container f with f.total.          *)
+------------------------------- MODULE MC_U4 -------------------------------
+(* Universe U4: the locations of U1 with a SMALL menu, explored deep (4-5 calls): count-sensitive histories  *)
+(* (two tasks sharing a dependency and an enclosing target, removal of one of them after a transfer).      *)
 (* Bound to Python by harness/bind.py: "a" -> s['a'], "n.x" -> s['n']['x'], "f:total" -> f.total         *)
 EXTENDS Integers, Sequences, FiniteSets, TLC, Json
 CONSTANTS Faults, Extras, Transfers, MaxDepth, EmitIdx, Episodes
@@ -9,27 +10,20 @@ LeafSeq == <<"a", "b", "n.x", "n.y">>
 cLeaf == {LeafSeq[i] : i \in 1..Len(LeafSeq)}
 cLoc  == cLeaf \cup {"n", "f:total"}
 cPar  == [l \in cLoc |-> IF l \in {"n.x", "n.y"} THEN "n" ELSE "/"]
-cValsOf == [l \in cLeaf |-> {7, -1}]
+cValsOf == [l \in cLeaf |-> {7}]
 cInitMem == [l \in cLeaf |-> CASE l = "a" -> 1 [] l = "b" -> 2 [] l = "n.x" -> 3 [] l = "n.y" -> 4]
 
 R(l) == [k |-> "ref", l |-> l]
 L(v) == [k |-> "lit", v |-> v]
 B(o, a, b) == [k |-> "bin", op |-> o, a |-> a, b |-> b]
 
-cMenu == {R(p) : p \in cLeaf}
-   \cup {B("+", R(LeafSeq[i]), R(LeafSeq[j])) : <<i, j>> \in {<<1, 2>>, <<1, 3>>, <<3, 4>>, <<2, 4>>}}
-   \cup {B("*", R(p), L(2)) : p \in cLeaf}
-   \cup {B("-", L(10), R(p)) : p \in {"a", "n.x"}}
-   \cup {[k |-> "neg", a |-> R(p)] : p \in {"b", "n.y"}}
-   \cup {[k |-> "tot", c |-> "n"]}
-   \cup {[k |-> "rnd", a |-> B("*", R("a"), L(5)), p |-> R("b")], [k |-> "rnd", a |-> R("n.x"), p |-> R("a")]}
-   \cup {B("+", B("*", R("a"), L(2)), R("n.y")), B("*", B("+", R("n.x"), L(1)), R("b"))}
+cMenu == {B("*", R("a"), L(2)), B("+", R("a"), L(1)), B("+", R("n.x"), R("n.y")), R("n.x"), [k |-> "tot", c |-> "n"]}
 
 cTaskSpec == [t \in {"F1", "K1"} |->
    IF t = "F1" THEN [kind |-> "fn", deps |-> {"a", "n.x"}, targets |-> {"b"}, out |-> "b", ins |-> <<"a", "n.x">>]
    ELSE [kind |-> "knob", src |-> "a", deps |-> {"a"}, targets |-> {"b", "n.y"}, tl |-> <<"b", "n.y">>, w |-> <<2, 3>>]]
 
-cIpOps == {"+", "*"}
+cIpOps == {"+"}
 cIpArgs == {3}
 
 INSTANCE Manager WITH KeepLoc <- "b", KeepExpr <- B("+", R("a"), L(1)), Loc <- cLoc, Leaf <- cLeaf, Par <- cPar, ValsOf <- cValsOf, InitMem <- cInitMem,
